@@ -44,12 +44,12 @@ CODES = {
     "C08": {2, 3, 4, 8},
     "C11": {5, 8, 9, 10},
     "C12": {2, 3, 5, 9},
-    "C13": {1, 2, 3, 4},
+    "C13": {11},
     "C14": {1, 5, 6, 9},
 }
 CODE_NAMES = {1: "result", 2: "in-memory header", 3: "in-memory descriptors", 4: "minimum-ID cache",
               5: "backing bytes", 6: "buffer position", 7: "live object content",
-              8: "header/table region", 9: "backing length", 10: "handle presence"}
+              8: "header/table region", 9: "backing length", 10: "handle presence", 11: "query answer"}
 
 TRUSTED_BASE = [
     "Coq 8.16.1 kernel and its bytecode VM (vm_compute); no native_compute",
@@ -185,7 +185,7 @@ def run_family(family, args, outdir, log):
     summary = json.load(open(os.path.join(outdir, "summary.json")))
     procs = []
     for f in summary["files"]:
-        cmd = "ulimit -s unlimited; timeout 3000 coqc -Q %s Sif %s" % (COQ, f)
+        cmd = "ulimit -s unlimited; ulimit -v 16000000; timeout 3000 coqc -Q %s Sif %s" % (COQ, f)
         procs.append((f, subprocess.Popen(cmd, shell=True, cwd=outdir, stdout=subprocess.PIPE,
                                           stderr=subprocess.STDOUT, text=True)))
     mism, errors = [], []
@@ -224,8 +224,15 @@ def hist_args(tier, seed, variant=""):
     return ["-seed", str(seed), "-n", "1600", "-shards", "64", "-maxcap", "16", "-maxops", "30", "-bigevery", "60"]
 
 
+def load_args(tier, seed, variant=""):
+    if tier == "quick":
+        return ["-seed", str(seed), "-n", "48", "-shards", "12", "-maxcap", "8", "-maxops", "5", "-corpus", "50000"]
+    return ["-seed", str(seed), "-n", "800", "-shards", "48", "-maxcap", "12", "-maxops", "12", "-corpus", "400000"]
+
+
 FAMILIES = {
-    "C11": [("hist", hist_args)],
+    "C11": [("hist", hist_args), ("load", load_args)],
+    "C13": [("hist", hist_args), ("load", load_args)],
 }
 
 
@@ -299,9 +306,9 @@ def decide(prop, tier, seed):
                 total_steps += summary["steps"]
                 distinct += summary["distinct_nontrivial"]
                 samples.extend(summary["samples"][:2])
-                fam_summaries[fam] = {k: summary[k] for k in ("cases", "steps", "op_kinds", "results", "backends",
-                                                               "capacities", "clock_brackets", "clock_out_of_bracket",
-                                                               "oracle_checks")}
+                fam_summaries[fam] = {k: summary.get(k) for k in ("cases", "steps", "queries", "op_kinds", "results", "backends",
+                                                                   "capacities", "clock_brackets", "clock_out_of_bracket",
+                                                                   "oracle_checks", "extra")}
                 for f in summary.get("oracle_findings") or []:
                     if f["property"] == prop:
                         oracle_findings.append(f)
@@ -312,9 +319,17 @@ def decide(prop, tier, seed):
     known_classes = {k["class"]: k for k in known.get("known", []) if k["property"] == prop}
     new_findings = [f for f in oracle_findings if f.get("class") not in known_classes]
     seen_known = sorted({f["class"] for f in oracle_findings if f.get("class") in known_classes})
+    witness_results = {}
     for k in known.get("known", []):
-        if k["property"] == prop:
-            print("KNOWN-FINDING: property=%s %s" % (prop, k["what"]), flush=True)
+        if k["property"] == prop and b["ok_go"]:
+            rc, out = sh([os.path.join(BIN, "drive"), "witness", k["witness"]], timeout=120)
+            still = out.startswith("true")
+            witness_results[k["id"]] = out.strip()
+            if still:
+                print("KNOWN-FINDING: property=%s %s: %s" % (prop, k["id"], k["what"]), flush=True)
+            else:
+                log("known finding %s no longer reproduces on its witness: %s" % (k["id"], out.strip()))
+    coverage["known_finding_witnesses"] = witness_results
 
     if new_findings:
         path = write_replay(prop, "failing-input", {"findings": new_findings[:20], "seed": seed, "tier": tier})
